@@ -85,6 +85,8 @@ func (r *runner) emit(m map[string]interface{}) {
 
 func (r *runner) addr(n *core.Node, name string, from *core.Account) *types.Address {
 	switch {
+	case name == "nil":
+		return nil // admissible: the admission check accepts an empty To (XVM deploy)
 	case name == "self":
 		return from.Addr
 	case strings.HasPrefix(name, "admin"):
@@ -236,7 +238,10 @@ func (r *runner) run(dir string) {
 					d["amtNum"] = v.Int64()
 				}
 			} else {
-				d["to"] = tx.GetTo().String()
+				d["to"] = "nil"
+				if tx.GetTo() != nil {
+					d["to"] = tx.GetTo().String()
+				}
 				d["amt"] = ""
 			}
 			descs = append(descs, d)
@@ -369,7 +374,7 @@ func genTx(rng *rand.Rand, surf []methodInfo, focus string) Tx {
 		pays := []string{"", "00", "ff", "0a", "0801", "08011203616263", "0802", "080210011a00", "0802100212050a03466f6f", "08031001", "ffffffffffffffffffff01", "0802100112"}
 		return Tx{K: "raw", From: from, To: []string{"contract:store", "contract:interchain", "u2", "0x0000000000000000000000000000000000000000"}[rng.Intn(4)], Pay: pays[rng.Intn(len(pays))], Cls: "raw", BadSig: rng.Intn(10) == 0}
 	case c < 18:
-		return Tx{K: "xvm", From: from, To: []string{"u2", "contract:store", "fresh3"}[rng.Intn(3)], M: []string{"", "set", "deploy"}[rng.Intn(3)], Args: []Arg{{"bytes", []string{"", "hex:0061736d01000000", "hex:00", "rep:2000:ab"}[rng.Intn(4)]}}, Cls: "xvm"}
+		return Tx{K: "xvm", From: from, To: []string{"u2", "contract:store", "fresh3", "0x0000000000000000000000000000000000000000"}[rng.Intn(4)], M: []string{"", "set", "deploy"}[rng.Intn(3)], Args: []Arg{{"bytes", []string{"", "hex:0061736d01000000", "hex:00", "rep:2000:ab"}[rng.Intn(4)]}}, Cls: "xvm"}
 	default:
 		mi := []string{"Set", "Add", "AddObject", "Delete", "PostEvent", "PostInterchainEvent", "CrossInvoke", "SetObject", "Get", "Has", "Query", "Caller", "Logger", "CurrentCaller", "GetTxHash", "ValidationEngine"}[rng.Intn(16)]
 		cn := []string{"interchain", "store", "txmgr", "governance", "role", "service"}[rng.Intn(6)]
